@@ -13,6 +13,7 @@ import (
 	"github.com/tink-crypto/tink-go/v2/aead/aesgcmsiv"
 	"github.com/tink-crypto/tink-go/v2/daead/aessiv"
 	"github.com/tink-crypto/tink-go/v2/hybrid"
+	"github.com/tink-crypto/tink-go/v2/internal/internalapi"
 	"github.com/tink-crypto/tink-go/v2/internal/protoserialization"
 	"github.com/tink-crypto/tink-go/v2/jwt"
 	"github.com/tink-crypto/tink-go/v2/jwt/jwtrsassapkcs1"
@@ -117,7 +118,12 @@ type shape struct {
 }
 
 // wellFormed checks what C14 promises about an accepted handle, reading only
-// the public accessors. It returns the handle's shape for the later oracles.
+// the public accessors. The promise (at least one key, distinct IDs, exactly
+// one ENABLED primary, only known statuses and prefix types) is held against
+// each view the handle offers — Entry(i)/Primary() and KeysetInfo() — on its
+// own; whether the views agree with each other is accessor coherence, which
+// C14 does not state: disagreement is counted, not raised. It returns the
+// handle's shape for the later oracles.
 func (w *world) wellFormed(h *keyset.Handle, ctx string) *shape {
 	r := w.r
 	sh := &shape{primary: -1}
@@ -126,6 +132,7 @@ func (w *world) wellFormed(h *keyset.Handle, ctx string) *shape {
 		return nil
 	}
 	w.guard("handle-accessors", func() {
+		// view 1: the entries
 		sh.n = h.Len()
 		if sh.n < 1 {
 			r.Violation("C14/handle-without-keys", fmt.Sprintf("%s: accepted handle has %d keys", ctx, sh.n))
@@ -168,21 +175,28 @@ func (w *world) wellFormed(h *keyset.Handle, ctx string) *shape {
 			r.Violation("C14/handle-primary-count", fmt.Sprintf("%s: %d primaries among %d entries", ctx, primaries, sh.n))
 			return
 		}
-		p, err := h.Primary()
-		if err != nil || p == nil || !p.IsPrimary() || p.KeyID() != sh.ids[sh.primary] {
-			r.Violation("C14/handle-primary-accessor", fmt.Sprintf("%s: Primary() = %v", ctx, err))
-			return
+		// Primary(): what it returns must be an ENABLED key; whether it is the entry marked primary is coherence
+		if p, err := h.Primary(); err == nil && p != nil {
+			if p.KeyStatus() != keyset.Enabled {
+				r.Violation("C14/handle-primary-not-enabled", fmt.Sprintf("%s: Primary() returns key %d with status %v", ctx, p.KeyID(), p.KeyStatus()))
+				return
+			}
+			if !p.IsPrimary() || p.KeyID() != sh.ids[sh.primary] {
+				r.Probe("accessor-views-disagree")
+			}
+		} else {
+			r.Probe("accessor-views-disagree")
 		}
+		// view 2: KeysetInfo()
 		info := h.KeysetInfo()
-		if info == nil || len(info.GetKeyInfo()) != sh.n {
-			r.Violation("C14/handle-keysetinfo", fmt.Sprintf("%s: KeysetInfo lists %d keys, the handle has %d", ctx, len(info.GetKeyInfo()), sh.n))
+		kis := info.GetKeyInfo()
+		if len(kis) < 1 {
+			r.Violation("C14/handle-without-keys", fmt.Sprintf("%s: KeysetInfo of the accepted handle lists %d keys", ctx, len(kis)))
 			return
 		}
-		if info.GetPrimaryKeyId() != sh.ids[sh.primary] {
-			r.Violation("C14/handle-keysetinfo", fmt.Sprintf("%s: KeysetInfo primary %d, entries say %d", ctx, info.GetPrimaryKeyId(), sh.ids[sh.primary]))
-			return
-		}
-		for i, ki := range info.GetKeyInfo() {
+		seenInfo := map[uint32]bool{}
+		infoPrimaries := 0
+		for i, ki := range kis {
 			switch ki.GetStatus() {
 			case tinkpb.KeyStatusType_ENABLED, tinkpb.KeyStatusType_DISABLED, tinkpb.KeyStatusType_DESTROYED:
 			default:
@@ -191,18 +205,47 @@ func (w *world) wellFormed(h *keyset.Handle, ctx string) *shape {
 			}
 			switch ki.GetOutputPrefixType() {
 			case tinkpb.OutputPrefixType_TINK, tinkpb.OutputPrefixType_LEGACY, tinkpb.OutputPrefixType_RAW, tinkpb.OutputPrefixType_CRUNCHY:
+			case tinkpb.OutputPrefixType_WITH_ID_REQUIREMENT:
+				// a declared enum value the library's own ML-DSA serializer emits: a reader may know it or not
+				r.Probe("handle-with-prefix-type-5")
 			default:
 				r.Violation("C14/handle-unknown-prefix", fmt.Sprintf("%s: KeysetInfo entry %d has prefix type %v", ctx, i, ki.GetOutputPrefixType()))
 				return
 			}
-			if ki.GetKeyId() != sh.ids[i] {
-				r.Violation("C14/handle-keysetinfo", fmt.Sprintf("%s: KeysetInfo entry %d has ID %d, Entry(%d) has %d", ctx, i, ki.GetKeyId(), i, sh.ids[i]))
+			if seenInfo[ki.GetKeyId()] {
+				r.Violation("C14/handle-duplicate-id", fmt.Sprintf("%s: key ID %d appears twice in KeysetInfo of the accepted handle", ctx, ki.GetKeyId()))
 				return
 			}
-			sh.urls = append(sh.urls, ki.GetTypeUrl())
+			seenInfo[ki.GetKeyId()] = true
+			if ki.GetKeyId() == info.GetPrimaryKeyId() {
+				infoPrimaries++
+				if ki.GetStatus() != tinkpb.KeyStatusType_ENABLED {
+					r.Violation("C14/handle-primary-not-enabled", fmt.Sprintf("%s: KeysetInfo primary %d has status %v", ctx, ki.GetKeyId(), ki.GetStatus()))
+					return
+				}
+			}
+		}
+		if infoPrimaries != 1 {
+			r.Violation("C14/handle-primary-count", fmt.Sprintf("%s: KeysetInfo names primary %d, which %d of its %d entries carry", ctx, info.GetPrimaryKeyId(), infoPrimaries, len(kis)))
+			return
+		}
+		// coherence of the two views (not part of the statement)
+		coherent := len(kis) == sh.n && info.GetPrimaryKeyId() == sh.ids[sh.primary]
+		for i := 0; coherent && i < sh.n; i++ {
+			coherent = kis[i].GetKeyId() == sh.ids[i]
+		}
+		if !coherent {
+			r.Probe("accessor-views-disagree")
+		}
+		for i := 0; i < sh.n; i++ {
+			if coherent {
+				sh.urls = append(sh.urls, kis[i].GetTypeUrl())
+			} else {
+				sh.urls = append(sh.urls, "")
+			}
 		}
 	})
-	if len(sh.keys) != sh.n || len(sh.urls) != sh.n || sh.n == 0 {
+	if len(sh.keys) != sh.n || len(sh.urls) != sh.n || sh.n == 0 || sh.primary < 0 {
 		return nil
 	}
 	return sh
@@ -388,43 +431,80 @@ func (w *world) exercise(h *keyset.Handle, sh *shape, written []string, ctx stri
 	if _, fb := primaryKey.(*protoserialization.FallbackProtoPrivateKey); fb {
 		pkt += ":" + strings.TrimPrefix(sh.urls[sh.primary], "type.googleapis.com/")
 	}
-	// enabled keys of the handle below the stated minimum strengths
-	type weakKey struct {
-		rule, typ, class string
-		primary          bool
+	// ENABLED keys of the handle below the stated minimum strengths: those the accessors show, and the hand-built one
+	type weakUse struct {
+		vkey, what, class string
+		primary, hand     bool
+		idx               int
 	}
-	var weak []weakKey
+	var weak []weakUse
 	w.guard("key-accessors", func() {
 		for i, k := range sh.keys {
 			if sh.statuses[i] != keyset.Enabled {
 				continue
 			}
 			if rule := weakness(k); rule != "" {
-				weak = append(weak, weakKey{rule, keyTypeName(k), classOfKey(k), i == sh.primary})
+				weak = append(weak, weakUse{vkey: fmt.Sprintf("C14/weak-key-usable:%s:%s", keyTypeName(k), rule),
+					what: fmt.Sprintf("the ENABLED %s key breaking %q", keyTypeName(k), rule), class: classOfKey(k), primary: i == sh.primary, idx: i})
 			}
 		}
 	})
 	if len(weak) > 0 {
 		r.Probe("weak-key-accepted-by-reader")
 	}
-	// A primitive the factories agree to build is a finding only if it USES the weak key: producing primitives (and
-	// the hybrid encrypter) use the primary key only; accepting primitives are built from every enabled key of their
-	// class. A signer built from a sound primary next to a weak AES key of another class does not use the weak key.
-	usable := func(class, side string) {
+	if w.weakExpect != "" && depth == 0 {
+		for i := range sh.keys {
+			if sh.ids[i] == w.weakID && sh.statuses[i] == keyset.Enabled {
+				weak = append(weak, weakUse{vkey: "C14/weak-key-built:" + w.weakExpect, what: "the hand-built weak key " + w.weakExpect + " (ENABLED)",
+					class: w.weakClass, primary: i == sh.primary, hand: true, idx: i})
+			}
+		}
+	}
+	// "Never yield a usable primitive": a factory that returns an object is not yet a finding (it may fail on every
+	// use); a finding needs a primitive that USES the weak key and WORKED. Producing primitives (and the hybrid
+	// encrypter) use the primary only; accepting primitives use every enabled key of their class — for those a valid
+	// input made with the weak key has to be arranged (the producer's output when the weak key is the primary, else
+	// the output of a producer built from the weak key alone); where none can be arranged a probe is counted.
+	worked := func(wk weakUse, class, side, how string) {
+		r.Violation(wk.vkey, fmt.Sprintf("%s: a %s %s primitive that uses %s worked: %s", ctx, class, side, wk.what, how))
+	}
+	builtWithWeak := func(class string, producing bool) []weakUse {
+		var out []weakUse
 		for _, wk := range weak {
-			if wk.class != class {
-				continue
+			if wk.class == class && (wk.primary || !producing) {
+				out = append(out, wk)
 			}
-			if (side == "producing" || side == "encrypter") && !wk.primary {
-				continue
+		}
+		if len(out) > 0 {
+			r.Probe("weak-key-primitive-built")
+		}
+		return out
+	}
+	// alone: a valid input made with the weak key as the only key of a handle (built through the public manager API
+	// from the accepted entry); a producer that works there is a finding already
+	alone := func(wk weakUse, class string, msg, aux []byte) []byte {
+		var out []byte
+		w.guard("use:"+class+":weak-key-alone", func() {
+			m := keyset.NewManager()
+			if _, err := m.AddKeyWithOpts(sh.keys[wk.idx], internalapi.Token{}, keyset.AsPrimary()); err != nil {
+				return
 			}
-			r.Violation(fmt.Sprintf("C14/weak-key-usable:%s:%s", wk.typ, wk.rule),
-				fmt.Sprintf("%s: the %s factory built a %s primitive that uses the ENABLED %s key breaking %q", ctx, class, side, wk.typ, wk.rule))
-		}
-		if w.weakExpect != "" && depth == 0 && class == w.weakClass && (w.weakPrimary || (side != "producing" && side != "encrypter")) {
-			r.Violation(fmt.Sprintf("C14/weak-key-built:%s", w.weakExpect),
-				fmt.Sprintf("%s: the %s factory built a %s primitive from a keyset holding the hand-built weak key %s (ENABLED)", ctx, class, side, w.weakExpect))
-		}
+			h1, err := m.Handle()
+			if err != nil {
+				return
+			}
+			p1, err := classes.NewProducer(class, h1)
+			if err != nil || p1 == nil {
+				return
+			}
+			o, err := p1.Produce(msg, aux)
+			if err != nil {
+				return
+			}
+			worked(wk, class, "producing", "built from that key alone, it produced an output")
+			out = o
+		})
+		return out
 	}
 	msg := w.g.Bytes(12, 0, w.msgLen)
 	aux := []byte("atrest-aux")
@@ -442,8 +522,25 @@ func (w *world) exercise(h *keyset.Handle, sh *shape, written []string, ctx stri
 				w.guard("factory:signature-verifier", func() { v, err = signature.NewVerifier(h) })
 				if err == nil && v != nil {
 					ok = true
-					usable(class, "verifier")
 					w.guard("use:signature-verifier:"+pkt, func() { _ = v.Verify(w.g.Bytes(12, 64, 64+5*w.msgLen), msg) })
+					for _, wk := range builtWithWeak(class, false) {
+						// a successful verification needs a signature made with the private half: the harness holds it for hand-built keys only
+						var sig []byte
+						if wk.hand && w.weakArrange != nil {
+							sig, _ = w.weakArrange(msg)
+						}
+						if sig == nil {
+							r.Probe("weak-key-no-successful-use-arranged")
+							continue
+						}
+						w.guard("use:signature-verifier:"+pkt, func() {
+							if v.Verify(sig, msg) == nil {
+								worked(wk, class, "verifying", "it verified a signature made with the private half")
+							} else {
+								r.Probe("weak-key-primitive-never-worked")
+							}
+						})
+					}
 				}
 			case classes.Hybrid:
 				var e interface {
@@ -453,12 +550,17 @@ func (w *world) exercise(h *keyset.Handle, sh *shape, written []string, ctx stri
 				w.guard("factory:hybrid-encrypt", func() { e, err = hybrid.NewHybridEncrypt(h) })
 				if err == nil && e != nil {
 					ok = true
-					usable(class, "encrypter")
+					uses := builtWithWeak(class, true)
 					w.guard("use:hybrid-encrypt:"+pkt, func() {
 						ct, err := e.Encrypt(msg, aux)
 						r.ObsErr("use hybrid-encrypt", err)
 						if err == nil && len(ct) == 0 {
 							r.Violation("C14/inconsistent:hybrid-encrypt:"+pkt, ctx+": Encrypt returned an empty ciphertext without error")
+						}
+						if err == nil {
+							for _, wk := range uses {
+								worked(wk, class, "encrypting", "Encrypt succeeded")
+							}
 						}
 					})
 				}
@@ -468,11 +570,27 @@ func (w *world) exercise(h *keyset.Handle, sh *shape, written []string, ctx stri
 				w.guard("factory:jwt-verifier", func() { v, err = jwt.NewVerifier(h) })
 				if err == nil && v != nil {
 					ok = true
-					usable(class, "verifier")
+					uses := builtWithWeak(class, false)
 					w.guard("use:jwt-verifier:"+pkt, func() {
 						val, verr := jwt.NewValidator(&jwt.ValidatorOpts{AllowMissingExpiration: true})
-						if verr == nil {
-							_, _ = v.VerifyAndDecode("eyJhbGciOiJFUzI1NiJ9.e30.AAAA", val)
+						if verr != nil {
+							return
+						}
+						_, _ = v.VerifyAndDecode("eyJhbGciOiJFUzI1NiJ9.e30.AAAA", val)
+						for _, wk := range uses {
+							var tok []byte
+							if wk.hand && w.weakArrange != nil {
+								tok, _ = w.weakArrange(msg)
+							}
+							if tok == nil {
+								r.Probe("weak-key-no-successful-use-arranged")
+								continue
+							}
+							if _, err := v.VerifyAndDecode(string(tok), val); err == nil {
+								worked(wk, class, "verifying", "it verified a token signed with the private half")
+							} else {
+								r.Probe("weak-key-primitive-never-worked")
+							}
 						}
 					})
 				}
@@ -488,16 +606,53 @@ func (w *world) exercise(h *keyset.Handle, sh *shape, written []string, ctx stri
 		var acc *classes.Acceptor
 		var perr, aerr error
 		w.guard("factory:"+class+":producer", func() { prod, perr = classes.NewProducer(class, h) })
-		if perr == nil && prod != nil {
-			usable(class, "producing")
-		}
 		if class != classes.KeyDerivation {
 			w.guard("factory:"+class+":acceptor", func() { acc, aerr = classes.NewAcceptor(class, h) })
-			if aerr == nil && acc != nil {
-				usable(class, "accepting")
+		}
+		prodOK := perr == nil && prod != nil
+		accOK := aerr == nil && acc != nil
+		if prodOK || accOK {
+			// (4): did a primitive that uses a weak key work?
+			var pw, aw []weakUse
+			if prodOK {
+				pw = builtWithWeak(class, true)
+			}
+			if accOK {
+				aw = builtWithWeak(class, false)
+			}
+			if len(pw)+len(aw) > 0 {
+				w.guard("use:"+class+":"+pkt, func() {
+					var out []byte
+					if prodOK {
+						if o, err := prod.Produce(msg, aux); err == nil {
+							out = o
+							for _, wk := range pw {
+								worked(wk, class, "producing", "it produced an output")
+							}
+						}
+					}
+					for _, wk := range aw {
+						in := out
+						if !wk.primary || in == nil {
+							in = alone(wk, class, msg, aux)
+						}
+						if in == nil {
+							r.Probe("weak-key-no-successful-use-arranged")
+							continue
+						}
+						if acc.Accept(in, msg, aux) == nil {
+							worked(wk, class, "accepting", "it accepted an output made with that key")
+						} else {
+							r.Probe("weak-key-primitive-never-worked")
+						}
+					}
+					if len(aw) == 0 && out == nil {
+						r.Probe("weak-key-primitive-never-worked")
+					}
+				})
 			}
 		}
-		if perr != nil || prod == nil || (class != classes.KeyDerivation && (aerr != nil || acc == nil)) {
+		if !prodOK || (class != classes.KeyDerivation && !accOK) {
 			res.refused++
 			r.Logf("  %s: factory refuses (producer: %v, acceptor: %v)", class, perr, aerr)
 			continue
